@@ -26,6 +26,8 @@ func init() {
 			"thorough adds every choice of 4 sources over a 12-tree core family. Chart trees: root / root>sub / root>sub>subsub for tuples of <=2 sources, 1 and 3 levels (2 and 3 with a parent section) for larger tuples; " +
 			"user sources repeat their tree under sub. and sub.subsub.; every value is tagged with its source and scope. A case is distinct by (sources, trees) and non-trivial when two sources speak about the same top-level key. " +
 			"--set grammar: every path (key in {a,b,'a.b','c,d','e=f'} followed by <=2 (thorough <=3) keys or indexes [0..2]) x 12 (22) value ASTs x 4 entry points x (6+4*(len-1)) base maps x 3 contexts (alone, before, after another pair); distinct by the full tuple. " +
+			"repeated flags (root chart): every sequence of length 3 over {file1,file2} (same path given again) x every pair of quick-family trees x defaults absent or any tree; " +
+			"--set / --set-json / --set-string with expressions A,B of the same flag in the orders (A,B), (A,B,A), (A,A,B) x every pair of trees; reference applies occurrences in the order given. " +
 			"no-mutation: deep snapshots of all chart Values and of the caller's map around ToRenderValues (every layering case) and CoalesceValues / chartutil.MergeValues (cases of <=2 sources), and again after overwriting every node of each result",
 		Run:    run,
 		Replay: replay,
@@ -39,6 +41,7 @@ func init() {
 		RequiredFloors: []string{
 			"saw-null-removes-lower-value", "saw-null-removes-value-in-subchart-scope", "saw-map-merged-from-several-sources", "saw-scalar-replaces", "saw-list-replaces",
 			"saw-reject-type-conflict", "saw-null-under-higher-map", "nomut-probed",
+			"saw-repeated-file-path-decides", "saw-repeated-flag-expression-decides", "saw-same-flag-twice-later-wins",
 			"set:escaped-key", "set:index-extends-list", "set:typed-int", "set:typed-null", "set:leading-zero-string", "set:error-on-other-kind", "set:siblings-kept",
 		},
 	})
@@ -88,6 +91,16 @@ func run(c *core.Ctx) {
 		defer w.close()
 		runLayer(c, w)
 		c.Count("phase_ms_layer", time.Since(t0).Milliseconds())
+	}
+	if c.Only == "repeat" {
+		w, err := newWork()
+		if err != nil {
+			c.NotExhaustive("cannot create scratch directory: %v", err)
+			return
+		}
+		defer w.close()
+		runRepeat(c, w, families("quick"), map[string]int{})
+		c.Count("phase_ms_repeat", time.Since(t0).Milliseconds())
 	}
 	t1 := time.Now()
 	if c.Only == "" || c.Only == "set" {
@@ -170,6 +183,101 @@ func runLayer(c *core.Ctx, w *work) {
 		}
 	}
 	c.Bound("chart_levels", "1,2,3")
+	runRepeat(c, w, families("quick"), seenPre)
+}
+
+// runRepeat: the same -f path or the same flag expression given more than once.
+//
+//	files: every sequence of length 3 over {file1, file2} x every pair of trees x chart defaults absent or any tree
+//	--set, --set-json, --set-string: two expressions A, B of the same flag in the orders (A,B), (A,B,A), (A,A,B) x every pair of trees
+//
+// Reference: occurrences are applied in the order given; a repeated one is applied again.
+func runRepeat(c *core.Ctx, w *work, fam [nSrc][]srcOpt, seenPre map[string]int) {
+	var fileSeqs [][]int
+	for a := 0; a < 2; a++ {
+		for b := 0; b < 2; b++ {
+			for d := 0; d < 2; d++ {
+				fileSeqs = append(fileSeqs, []int{a, b, d})
+			}
+		}
+	}
+	flagSeqs := [][]int{{0, 1}, {0, 1, 0}, {0, 0, 1}}
+	samples := 0
+	n := int64(0)
+	one := func(lc layerCase) {
+		if !c.NextMine() {
+			return
+		}
+		n++
+		c.Eval(1)
+		c.Distinct("repeat|" + lc.String())
+		fails, obs := execLayer(w, lc)
+		for _, cl := range obs.classes {
+			c.Outcome(cl)
+		}
+		for _, f := range obs.floors {
+			c.Floor(f)
+		}
+		if len(fails) == 0 {
+			if samples < 3 && len(obs.floors) > 0 && !obs.rejected && c.Distinct("sampled-rep|"+obs.classes[0]) {
+				samples++
+				c.Sample(map[string]any{"part": "repeated-flags", "case": lc.String(), "helm_agrees": true})
+			}
+			return
+		}
+		done := map[string]bool{}
+		for _, f := range fails {
+			cat := category(f.Class)
+			if done[cat] {
+				continue
+			}
+			done[cat] = true
+			pre := cat + "|" + layerKey(lc, lfail{})
+			seenPre[pre]++
+			if seenPre[pre] > 2 {
+				c.Count("violations_raw", 1)
+				c.Count("failing_cases_not_minimised_same_class", 1)
+				continue
+			}
+			m := minimiseLayerFor(w, lc, fam, cat)
+			mf, _ := execLayer(w, m)
+			for _, x := range mf {
+				if category(x.Class) == cat {
+					c.Violate(prop, layerKey(m, x), x.What, replayData{Mode: "layer", Class: x.Class, Layer: &m})
+				}
+			}
+		}
+	}
+	defs := append([]*srcOpt{nil}, func() []*srcOpt {
+		var o []*srcOpt
+		for i := range fam[srcDef] {
+			o = append(o, &fam[srcDef][i])
+		}
+		return o
+	}()...)
+	for _, def := range defs {
+		for _, seq := range fileSeqs {
+			for _, t1 := range fam[srcF1] {
+				for _, t2 := range fam[srcF2] {
+					lc := layerCase{Shape: 1, AllEntries: false, Rep: &repSpec{Family: srcF1, Items: []srcOpt{t1, t2}, Seq: seq}}
+					lc.Srcs[srcDef] = def
+					one(lc)
+				}
+			}
+		}
+	}
+	for _, f := range []int{srcJSON, srcSet, srcStr} {
+		for _, seq := range flagSeqs {
+			for _, t1 := range fam[f] {
+				for _, t2 := range fam[f] {
+					one(layerCase{Shape: 1, Rep: &repSpec{Family: f, Items: []srcOpt{t1, t2}, Seq: seq}})
+				}
+			}
+		}
+	}
+	c.Bound("repeated_file_sequences", "all 8 of length 3 over {file1,file2} x tree pairs x (no defaults | each defaults tree)")
+	c.Bound("repeated_flag_orders", "--set/--set-json/--set-string: (A,B),(A,B,A),(A,A,B) x tree pairs")
+	c.Count("repeat_cases", n)
 }
 
 // nonTrivial: two sources speak about the same top-level key.
